@@ -236,6 +236,7 @@ def run(pid, tier, seed, do_replay=None):
     for rep in ctx.reports.values():
         used |= rep.used_lemmas
     used |= set(getattr(ctx, "used_lemmas", ()))
+    used |= set(getattr(ctx.registry, "auto_lemmas", ()))      # identities the array models rely on (numpy.diag products)
     jobs = list(plan.lean) + [lemmalib.job(n) for n in sorted(used)]
     lean_results = lean.run_jobs(jobs, ctx) if jobs else []
     for lr in lean_results:
